@@ -49,8 +49,8 @@ def ins(n):
 
 def histories_for(pid, tier):
     """list of (kind, template)"""
-    deep = tier == 'thorough'
-    nmax = 4 if deep else 3
+    deep = tier in ('thorough', 'escalate')
+    nmax = {'quick': 3, 'thorough': 4, 'escalate': 5}[tier]
     out = []
 
     def key_hist(finals, mids=('first_less_or_equal',)):
@@ -81,10 +81,12 @@ def histories_for(pid, tier):
         key_hist(['into_ordered_vec'], mids=('first_less_or_equal', 'get_value'))
     elif pid == 'C20':
         key_hist(['get_value', 'insert'] + KEY_Q)
-    elif pid == 'C04':
-        ms_hist(['map'], ['get_value', 'is_empty', 'delete'])
-    elif pid == 'C05':
-        ms_hist(['set'], ['get_value', 'is_empty', 'delete'])
+    elif pid in ('C04', 'C05'):
+        k = 'map' if pid == 'C04' else 'set'
+        ms_hist([k], ['get_value', 'is_empty', 'delete'])
+        # values survive a clear followed by slot reuse and a removal that needs the temporary sentinel
+        out.append((k, ['insert', 'clear'] + ins(4) + ['delete', 'get_value']))
+        out.append((k, ins(2) + ['clear'] + ins(3) + ['pred_delete', 'get_value']))
     elif pid == 'C08':
         ms_hist(['map', 'set'], ['pred_read', 'pred_write', 'pred_delete', 'first_index_less_by'])
     elif pid == 'C09':
@@ -111,14 +113,20 @@ def histories_for(pid, tier):
             ms_hist(['set'], ['pred_after', 'pred_before'])
         for k in ('map', 'set', 'key'):
             out.append((k, ins(2) + ['clear', 'insert']))
+            for cap in (0, 1, 8, 9):
+                out.append((k, ['insert'] if cap else [], cap))       # base case new(capacity hint)
+            out.append((k, ['insert_asc'] * 9 + ['get_value'], 0))      # arena growth from the default 8 slots (ascending keys)
+            out.append((k, ins(3), 1))
     # de-duplicate
     seen = set()
     res = []
-    for k, t in out:
-        key = (k, tuple(t))
+    for item in out:
+        k, t = item[0], item[1]
+        cap = item[2] if len(item) > 2 else 0
+        key = (k, tuple(t), cap)
         if key not in seen:
             seen.add(key)
-            res.append((k, t))
+            res.append((k, t, cap))
     return res
 
 
